@@ -209,10 +209,17 @@ void vf_case(vf::Ctx& c) {
             for (unsigned b = 0; b < fr.fcs_bytes; b++) g[fr.fcs_off + b] = (uint8_t)(nv >> (8 * b));
             uint64_t claimed = nv + (fr.fcs_bytes == 2 ? 256 : 0);
             if (claimed > (64ull << 20)) continue;
-            vf::Buf out((size_t)std::max<uint64_t>(claimed, x.size()) + 16);
-            set_dec(dctx, ml);
-            size_t d = ZSTD_decompressDCtx(dctx, out.p, out.n, g.data(), g.size());
-            VF_CHECK(c, ZSTD_isError(d), "frame whose content-size field was changed from %llu to %llu (actual content %zu) decoded successfully", (unsigned long long)old, (unsigned long long)nv, x.size());
+            // no destination capacity may turn the lie into a success: roomy, exactly the claimed size, exactly the real size, one more / one less
+            size_t big = (size_t)std::max<uint64_t>(claimed, x.size()) + 16;
+            size_t caps[] = {big, (size_t)claimed, x.size(), x.size() + 1, x.size() ? x.size() - 1 : 0, (size_t)claimed + 1};
+            for (size_t cap : caps) {
+                vf::Buf out(cap);
+                set_dec(dctx, ml);
+                size_t d = ZSTD_decompressDCtx(dctx, out.p, out.n, g.data(), g.size());
+                VF_CHECK(c, ZSTD_isError(d), "frame whose content-size field was changed from %llu to %llu (actual content %zu) decoded successfully into a destination of %zu bytes", (unsigned long long)old, (unsigned long long)nv, x.size(), cap);
+                if (!ml) { d = ZSTD_decompress(out.p, out.n, g.data(), g.size()); VF_CHECK(c, ZSTD_isError(d), "ZSTD_decompress: content-size field changed from %llu to %llu (actual %zu) accepted with a destination of %zu bytes", (unsigned long long)old, (unsigned long long)nv, x.size(), cap); }
+                c.label("fcs_lie_capacities");
+            }
             size_t produced; bool errored;
             bool complete = stream_reports_complete(dctx, ml, g.data(), g.size(), ichunk, 1u << 17, &produced, &errored);
             VF_CHECK(c, !complete, "streaming: frame with a false content size (%llu for %zu) reported complete", (unsigned long long)claimed, x.size());
